@@ -274,6 +274,48 @@ struct H {
                                   " bits in the binades below 1e-200 and above 1e200, precision 0..40, Default format";
             return;
         }
+        if (what.compare(0, 5, "wide-") == 0) {
+            // "wide-<M>": M million doubles per shard from a fixed pseudo-random stream (a function of the shard number), each
+            // with hundreds of integer or fraction digits (|binary exponent| >= 200), printed in the Fixed and SemiFixed formats
+            // at precision 0..3 and Default at 17..40: the conversions in which the multi-word division runs longest, so that
+            // a digit estimate that is wrong once in 10^8 conversions has somewhere to show
+            Qentem::MemoryRecord::data().enabled = false;
+            ctx.max_samples                      = 4;
+            const uint64_t n = strtoull(what.c_str() + 5, nullptr, 10) * 1000000ULL;
+            uint64_t       x = 0x9E3779B97F4A7C15ULL * (uint64_t(shard) + 1) + 10;
+            for (uint64_t i = 0; i < n; ++i) {
+                x ^= x << 13;
+                x ^= x >> 7;
+                x ^= x << 17;
+                unsigned be = unsigned((x >> 52) & 0x7FF);
+                if (be == 0x7FF) {
+                    be = 0x7FE;
+                }
+                if (be > 823 && be < 1223) { // keep |exponent| >= 200
+                    be = (be & 1) ? be - 400 : be + 400;
+                }
+                Case c;
+                c.kind      = 0;
+                c.bits      = (x & 0x800FFFFFFFFFFFFFULL) | (uint64_t(be) << 52);
+                c.width     = 1;
+                c.cls       = "wide-enumeration";
+                const unsigned sel = unsigned(x >> 20) & 7;
+                if (sel < 3) {
+                    c.format    = 1;
+                    c.precision = sel;
+                } else if (sel < 6) {
+                    c.format    = 2;
+                    c.precision = sel - 3;
+                } else {
+                    c.format    = 0;
+                    c.precision = 17 + unsigned(x >> 30) % 24;
+                }
+                if (pbt::exec_case_fast<H>(ctx, c) == pbt::Status::Fail) {
+                    return;
+                }
+            }
+            return; // a sample
+        }
         unsigned p = 9;
         int      f = 0;
         sscanf(what.c_str(), "floats-%u-%d", &p, &f);
